@@ -504,6 +504,13 @@ def Call.isView : Call → Bool
   | .view _ => true
   | _ => false
 
+/-- who a call names besides its caller -/
+def Call.parties : Call → List Addr
+  | .approve _ _ => []                      -- the spender gains a right, none of its assets is touched
+  | .transferShares t _ => [t]
+  | .transferFromShares f t _ => [f, t]
+  | _ => []
+
 /-- every state-changing method acts on the direct caller's assets; `transferFromShares` acts on `from` after the
 allowance `from → caller` has been checked and reduced -/
 def specEffect (c : Addr) (call : Call) (w : World) : Except Err World :=
